@@ -48,6 +48,55 @@ fn parse(out: &str) -> Value {
     json!({"nums": nums, "marks": marks, "dots": dots, "other": other})
 }
 
+/// The same value formatted with a custom FormatOption that brackets whatever each of the three formatters is given
+/// (private-use characters): with the brackets removed the text must be the default rendering; the bracketed pieces are
+/// returned by kind so that the checker can compare them with the layout of the specification.
+fn custom(default: &str, run: impl FnOnce(&mut String) -> std::fmt::Result) -> Value {
+    let mut out = String::new();
+    let r = catch_unwind(AssertUnwindSafe(|| run(&mut out).is_ok()));
+    match r {
+        Ok(true) => {
+            let mut pieces: [Vec<String>; 3] = [vec![], vec![], vec![]];
+            let mut cur: Option<(usize, String)> = None;
+            let mut stripped = String::new();
+            let mut nested = false;
+            for c in out.chars() {
+                let k = c as u32;
+                if (0xE000..=0xE005).contains(&k) {
+                    let idx = ((k - 0xE000) / 2) as usize;
+                    if (k - 0xE000) % 2 == 0 {
+                        nested |= cur.is_some();
+                        cur = Some((idx, String::new()));
+                    } else {
+                        match cur.take() {
+                            Some((i, t)) if i == idx => pieces[i].push(t),
+                            _ => nested = true,
+                        }
+                    }
+                } else {
+                    stripped.push(c);
+                    if let Some((_, t)) = cur.as_mut() {
+                        t.push(c);
+                    }
+                }
+            }
+            json!({"eq": stripped == default, "s": pieces[0], "m": pieces[1], "n": pieces[2], "nested": nested || cur.is_some()})
+        }
+        Ok(false) => json!({"fmt_error": true}),
+        Err(_) => json!({"panic": true}),
+    }
+}
+
+macro_rules! bracket_opt {
+    () => {
+        pest_typed::VerifFormatOption::new(
+            |s: &str, f: &mut String| { f.push('\u{E000}'); f.push_str(s); f.push('\u{E001}'); Ok(()) },
+            |s: &str, f: &mut String| { f.push('\u{E002}'); f.push_str(s); f.push('\u{E003}'); Ok(()) },
+            |s: &str, f: &mut String| { f.push('\u{E004}'); f.push_str(s); f.push('\u{E005}'); Ok(()) },
+        )
+    };
+}
+
 pub fn disp_mode(s: &str) -> Value {
     let n = s.len();
     let mut spans = vec![];
@@ -60,6 +109,7 @@ pub fn disp_mode(s: &str) -> Value {
                         let mut v = parse(&out);
                         v["a"] = json!(a);
                         v["b"] = json!(b);
+                        v["custom"] = custom(&out, |f| sp.display(f, bracket_opt!()));
                         v
                     }
                     Err(_) => json!({"a": a, "b": b, "panic": true}),
@@ -75,6 +125,7 @@ pub fn disp_mode(s: &str) -> Value {
                 Ok(out) => {
                     let mut v = parse(&out);
                     v["p"] = json!(p);
+                    v["custom"] = custom(&out, |f| pos.display(f, bracket_opt!()));
                     v
                 }
                 Err(_) => json!({"p": p, "panic": true}),
